@@ -5,28 +5,28 @@
 PARTS = {
     "C01": [
         {"test": "TestVfC01Delivery",
-         "quick": {"checks": 480, "shards": 16, "timeout": 900},
+         "quick": {"checks": 1920, "shards": 16, "timeout": 900},
          "thorough": {"checks": 16000, "shards": 16, "timeout": 3400}},
     ],
     "C16": [
         {"test": "TestVfC16Blacklist",
-         "quick": {"checks": 1200, "shards": 12, "timeout": 900},
+         "quick": {"checks": 3600, "shards": 12, "timeout": 900},
          "thorough": {"checks": 40000, "shards": 16, "timeout": 3000}},
     ],
     "C05": [
         {"test": "TestVfC05Converge",
-         "quick": {"checks": 1200, "shards": 12, "timeout": 900},
+         "quick": {"checks": 3600, "shards": 12, "timeout": 900},
          "thorough": {"checks": 16000, "shards": 16, "timeout": 3000}},
         {"test": "TestVfC05Announce",
-         "quick": {"checks": 4000, "shards": 4, "timeout": 600},
+         "quick": {"checks": 16000, "shards": 8, "timeout": 600},
          "thorough": {"checks": 300000, "shards": 16, "timeout": 2400}},
     ],
     "C14": [
         {"test": "TestVfC14Net", "replay_runs": 5,
-         "quick": {"checks": 360, "shards": 12, "timeout": 900},
+         "quick": {"checks": 1080, "shards": 12, "timeout": 900},
          "thorough": {"checks": 8000, "shards": 16, "timeout": 3000}},
         {"test": "TestVfC14Shutdown", "replay_runs": 20,
-         "quick": {"checks": 12000, "shards": 4, "timeout": 900, "gomaxprocs": [16, 2, 16, 4]},
+         "quick": {"checks": 24000, "shards": 8, "timeout": 900, "gomaxprocs": [16, 2, 16, 4]},
          "thorough": {"checks": 600000, "shards": 16, "timeout": 3000, "gomaxprocs": [16, 2, 1, 4]}},
     ],
     "C12": [
@@ -34,33 +34,33 @@ PARTS = {
          "quick": {"shards": 1, "timeout": 300},
          "thorough": {"shards": 1, "timeout": 900, "fuzztime": "180s"}},
         {"test": "TestVfC12Wire", "inflight": True,
-         "quick": {"checks": 600, "shards": 12, "timeout": 900},
+         "quick": {"checks": 1800, "shards": 12, "timeout": 900},
          "thorough": {"checks": 16000, "shards": 16, "timeout": 3000}},
         {"test": "TestVfC12Hostile", "inflight": True, "stall_is_violation": True,
-         "quick": {"checks": 2400, "shards": 4, "timeout": 900},
+         "quick": {"checks": 6000, "shards": 8, "timeout": 900},
          "thorough": {"checks": 200000, "shards": 16, "timeout": 3000}},
     ],
     "C13": [
         {"test": "TestVfC13Reclaim",
-         "quick": {"checks": 1500, "shards": 4, "timeout": 900},
+         "quick": {"checks": 6000, "shards": 8, "timeout": 900},
          "thorough": {"checks": 100000, "shards": 16, "timeout": 3000}},
         {"test": "TestVfC13Net",
-         "quick": {"checks": 480, "shards": 12, "timeout": 900},
+         "quick": {"checks": 1440, "shards": 12, "timeout": 900},
          "thorough": {"checks": 12000, "shards": 16, "timeout": 3000}},
     ],
     "C03": [
         {"test": "TestVfC03Signing",
-         "quick": {"checks": 3000, "shards": 4, "timeout": 600},
+         "quick": {"checks": 12000, "shards": 8, "timeout": 600},
          "thorough": {"checks": 300000, "shards": 16, "timeout": 2400}},
     ],
     "C04": [
         {"test": "TestVfC04Verdicts",
-         "quick": {"checks": 3000, "shards": 4, "timeout": 600},
+         "quick": {"checks": 12000, "shards": 8, "timeout": 600},
          "thorough": {"checks": 200000, "shards": 16, "timeout": 2400}},
     ],
     "C19": [
         {"test": "TestVfC19Trace",
-         "quick": {"checks": 3000, "shards": 4, "timeout": 600},
+         "quick": {"checks": 12000, "shards": 8, "timeout": 600},
          "thorough": {"checks": 200000, "shards": 16, "timeout": 2400}},
     ],
     "C18": [
@@ -76,22 +76,22 @@ PARTS = {
     ],
     "C06": [
         {"test": "TestVfC06Recipients",
-         "quick": {"checks": 4000, "shards": 4, "timeout": 600},
+         "quick": {"checks": 16000, "shards": 8, "timeout": 600},
          "thorough": {"checks": 300000, "shards": 16, "timeout": 2400}},
     ],
     "C09": [
         {"test": "TestVfC09Thresholds",
-         "quick": {"checks": 4000, "shards": 4, "timeout": 600},
+         "quick": {"checks": 16000, "shards": 8, "timeout": 600},
          "thorough": {"checks": 300000, "shards": 16, "timeout": 2400}},
     ],
     "C08": [
         {"test": "TestVfC08Backoff",
-         "quick": {"checks": 6000, "shards": 4, "timeout": 600},
+         "quick": {"checks": 24000, "shards": 8, "timeout": 600},
          "thorough": {"checks": 400000, "shards": 16, "timeout": 2400}},
     ],
     "C07": [
         {"test": "TestVfC07Mesh",
-         "quick": {"checks": 6000, "shards": 4, "timeout": 600},
+         "quick": {"checks": 24000, "shards": 8, "timeout": 600},
          "thorough": {"checks": 400000, "shards": 16, "timeout": 2400}},
     ],
     "C17": [
@@ -99,7 +99,7 @@ PARTS = {
          "quick": {"checks": 20000, "shards": 4, "timeout": 300},
          "thorough": {"checks": 800000, "shards": 16, "timeout": 1500}},
         {"test": "TestVfC17bGossip",
-         "quick": {"checks": 4000, "shards": 4, "timeout": 600},
+         "quick": {"checks": 16000, "shards": 8, "timeout": 600},
          "thorough": {"checks": 300000, "shards": 16, "timeout": 2400}},
     ],
     "C02": [
@@ -107,12 +107,12 @@ PARTS = {
          "quick": {"checks": 20000, "shards": 4, "timeout": 300},
          "thorough": {"checks": 800000, "shards": 16, "timeout": 1500}},
         {"test": "TestVfC02bPipeline",
-         "quick": {"checks": 3000, "shards": 4, "timeout": 600},
+         "quick": {"checks": 12000, "shards": 8, "timeout": 600},
          "thorough": {"checks": 200000, "shards": 16, "timeout": 2400}},
     ],
     "C20": [
         {"test": "TestVfC20bNode", "inflight": True, "stall_is_violation": True,
-         "quick": {"checks": 3000, "shards": 4, "timeout": 600, "gomaxprocs": [16, 2, 16, 4]},
+         "quick": {"checks": 12000, "shards": 8, "timeout": 600, "gomaxprocs": [16, 2, 16, 4]},
          "thorough": {"checks": 200000, "shards": 16, "timeout": 2400, "gomaxprocs": [16, 2, 1, 4]}},
         {"test": "TestVfC20aSeqno",
          "quick": {"checks": 12000, "shards": 4, "timeout": 300, "gomaxprocs": [16, 2, 1, 4]},
@@ -142,7 +142,7 @@ PARTS = {
          "quick": {"checks": 20000, "shards": 4, "timeout": 300},
          "thorough": {"checks": 800000, "shards": 16, "timeout": 1500}},
         {"test": "TestVfC11Send",
-         "quick": {"checks": 4000, "shards": 4, "timeout": 300},
+         "quick": {"checks": 12000, "shards": 8, "timeout": 300},
          "thorough": {"checks": 200000, "shards": 16, "timeout": 1500}},
     ],
 }
